@@ -146,18 +146,21 @@ def monDepositD (amp : Nat) (xs : List Nat) (d : Nat) : Verdict :=
   else if conv then none
   else some "C19-nonconverged-accepted"
 
-/-- C03 for a stableswap pool touched by a route (no per-hop amounts are observable): the exact invariant of the
-    reported reserves did not decrease; a relative decrease below 10^-9 is the recorded rounding class of F-03
-    (every hop rounds its output up by one unit / the D solver's resolution) -/
+/-- C03 for a stableswap pool that a route went through exactly once (only the reserves before and after are
+    observable): if one reserve grew (the hop's offer) and one shrank (what left: net + protocol + burn), the hop is
+    judged like a direct swap (`monSsSwap`, with the amount that left standing in for the gross output — the recorded
+    rounding class F-03 is about the gross output, so this is the lenient side); a pool from which something left
+    while nothing came in lost value outright -/
 def monSsPoolD (amp : Nat) (decimals before after : List Nat) : Verdict :=
-  let ann := amp * before.length
-  let nb := normBalances decimals before
-  let na := normBalances decimals after
-  if nb.any (· == 0) || na.any (· == 0) then none else
-  let db := Spec.dFloorScaled ann nb SS_K
-  let da := Spec.dFloorScaled ann na SS_K
-  if db ≤ da then none
-  else if (db - da) * 1000000000 ≤ db then some "C03-ss-rounding"
-  else some "C03-ss-invariant"
+  let idx := List.range before.length
+  let inc := idx.filter fun i => after.getD i 0 > before.getD i 0
+  let dec := idx.filter fun i => after.getD i 0 < before.getD i 0
+  match inc, dec with
+  | [i], [j] =>
+    let offer := after.getD i 0 - before.getD i 0
+    let out := before.getD j 0 - after.getD j 0
+    monSsSwap amp decimals before i j offer out out
+  | [], [_] => some "C03-ss-invariant"
+  | _, _ => none
 
 end MantraDex
